@@ -161,7 +161,7 @@ theorem src_iterate_contacts_nodup {σ : Type} (key : Go.Bytes) (n : Int)
   rcases Src.dhtIterate_inv key n (srcRec g) (fun _ => True) (fun seen s => s.2 = seen ∧ seen.Nodup)
       (by
         intro seen s node hR _ hnot
-        refine ⟨⟨?_, ?_⟩, fun _ _ => trivial⟩
+        refine ⟨⟨?_, ?_⟩, fun _ _ _ => trivial⟩
         · simp only [srcRec]; rw [hR.1]
         · exact List.nodup_cons.2 ⟨hnot, hR.2⟩)
       nodes (fun _ _ => trivial) (st0, []) ⟨rfl, List.nodup_nil⟩ with h | h | ⟨st, h, seen, hs, hn⟩
@@ -169,18 +169,23 @@ theorem src_iterate_contacts_nodup {σ : Type} (key : Go.Bytes) (n : Int)
   · exact .inr (.inl h)
   · exact .inr (.inr ⟨st.1, st.2, h, hs ▸ hn⟩)
 
-/-- ⊢ regenerated, only mentioned nodes: every id the regenerated `dhtIterate` passes to the callback is the id of
-    an initial peer or of a peer some earlier answer of the callback listed. -/
+/-- ⊢ regenerated, only nearer mentioned nodes: every id the regenerated `dhtIterate` passes to the callback is the
+    id of an initial peer, or of a peer that an earlier answer of the callback listed AND that is strictly nearer to
+    the key than the node which listed it. (So every chain of referrals strictly descends in distance: what bounds
+    the operation whatever the responders fabricate.) -/
 theorem src_iterate_contacts_mentioned {σ : Type} (key : Go.Bytes) (n : Int)
     (g : σ → Src.kademlia.NodeInfoT → σ × List Src.kademlia.NodeInfoT × Bool)
     (nodes : List Src.kademlia.NodeInfoT) (st0 : σ) (st : σ) (tr : List Go.Bytes)
     (h : Src.kademlia.dhtIterate nodes key n (fun s x => pure (srcRec g s x)) (st0, []) = .ok (st, tr)) :
-    ∀ id ∈ tr, (∃ x ∈ nodes, x.ID = id) ∨ ∃ s y, ∃ x ∈ (g s y).2.1, x.ID = id := by
-  let P : Src.kademlia.NodeInfoT → Prop := fun x => x ∈ nodes ∨ ∃ s y, x ∈ (g s y).2.1
+    ∀ id ∈ tr, (∃ x ∈ nodes, x.ID = id) ∨
+      ∃ s y, ∃ x ∈ (g s y).2.1, x.ID = id ∧
+        Kad.distanceLt (SrcKad.nb key) (SrcKad.nb x.ID) (SrcKad.nb y.ID) = true := by
+  let P : Src.kademlia.NodeInfoT → Prop := fun x => x ∈ nodes ∨
+    ∃ s y, x ∈ (g s y).2.1 ∧ Kad.distanceLt (SrcKad.nb key) (SrcKad.nb x.ID) (SrcKad.nb y.ID) = true
   rcases Src.dhtIterate_inv key n (srcRec g) P (fun _ s => ∀ id ∈ s.2, ∃ x, P x ∧ x.ID = id)
       (by
         intro seen s node hR hPn _
-        refine ⟨?_, fun x hx => .inr ⟨s.1, node, hx⟩⟩
+        refine ⟨?_, fun x hx hlt => .inr ⟨s.1, node, hx, hlt⟩⟩
         intro id hid
         simp only [srcRec, List.mem_cons] at hid
         rcases hid with hid | hid
@@ -193,9 +198,9 @@ theorem src_iterate_contacts_mentioned {σ : Type} (key : Go.Bytes) (n : Int)
     cases h'
     intro id hid
     obtain ⟨x, hx, hxid⟩ := hR id hid
-    rcases hx with hx | ⟨s, y, hx⟩
+    rcases hx with hx | ⟨s, y, hx, hlt⟩
     · exact .inl ⟨x, hx, hxid⟩
-    · exact .inr ⟨s, y, x, hx, hxid⟩
+    · exact .inr ⟨s, y, x, hx, hxid, hlt⟩
 
 -- non-vacuity: a concrete run of the regenerated function (A lists B and C; B and C list A back; all ids differ)
 example :
